@@ -56,6 +56,13 @@ fn boundary_chain() -> Vec<BlockSpec> {
         if i % 3 == 0 { t.witness = Some((0..nin).map(|j| (0..j).map(|q| rng.bytes(q * 40)).collect()).collect()); }
         txs.push(t);
     }
+    // previous-output txids that agree in a prefix / suffix / all but one byte with their neighbour's (same tx, next tx, and
+    // directly after the coinbase's all-zero txid); a non-coinbase input whose index is 0xffffffff
+    let a = [0xaau8; 32]; let mut b = [0xbbu8; 32]; b[..8].copy_from_slice(&[0xaa; 8]); let mut c = [0xaau8; 32]; c[..24].copy_from_slice(&[0xcc; 24]);
+    let mut z = [0x99u8; 32]; z[..8].copy_from_slice(&[0; 8]); let mut z2 = [0u8; 32]; z2[31] = 1; let mut a1 = a; a1[16] ^= 1;
+    txs.insert(0, TxSpec::new(vec![TxIn::new(z, 0, vec![0x51]), TxIn::new(z2, u32::MAX, vec![]), TxIn::new([0xab; 32], u32::MAX, vec![0x52])], vec![TxOut::new(1, vec![0x51])]));
+    txs.insert(1, TxSpec::new(vec![TxIn::new(a, 0, vec![]), TxIn::new(a, 1, vec![]), TxIn::new(b, 0, vec![]), TxIn::new(a, 2, vec![]), TxIn::new(c, 2, vec![]), TxIn::new(a1, 2, vec![])], vec![TxOut::new(2, vec![0x51])]));
+    txs.insert(2, TxSpec::new(vec![TxIn::new(a, 3, vec![]), TxIn::new(b, 1, vec![])], vec![TxOut::new(3, vec![0x51])]));
     blocks.push(txs);
     let mut it = blocks.into_iter();
     let mut chain = make_chain(6, &mut |h| if h == 0 { vec![] } else { it.next().unwrap() });
